@@ -207,6 +207,7 @@ def main():
             open(path, "w").write(src)
             results.append(dict(id=m["id"], prop=m["prop"], file=m["file"], note=m["note"], status=status, signatures=sigs[:4], replay_reproduces=replay_ok, secs=round(time.time() - t0, 1)))
             print(f"{m['id']:36s} {m['prop']} {status:8s} replay={replay_ok} {sigs[:2]}")
+            if status == "HARNESS-ERROR": print("\n".join(l for l in r.stdout.splitlines() if "HARNESS" in l)[:1500])
             sys.stdout.flush()
         ok, err = build()
         os.makedirs("/verif/selftest", exist_ok=True)
